@@ -137,8 +137,8 @@ func c04Tasks(tier string) []Task {
 			tasks = append(tasks, Task{Level: fmt.Sprintf("body<=%d-pre<=%d-post<=%d", bodyLen, preLen, postLen), Name: fmt.Sprintf("%s body#%d [%s]", cfg, bi, traceString(body)), Fn: func(res *TaskResult) {
 				for _, syncOpt := range []int{0, 1} {
 					for _, pre := range pres {
-						if cfg.IO == 1 && len(pre) > 1 {
-							continue // MMap: pre-histories of at most one operation (thorough tier sizing)
+						if (cfg.IO == 1 || cfg.FileSize != defaultCfg.FileSize) && len(pre) > 1 {
+							continue // MMap and DataFileSize 200: pre-histories of at most one operation (thorough tier sizing)
 						}
 						for _, post := range posts {
 							ops := append(append(append([]Op{}, pre...), Op{K: "batch", Sub: body, Arg: syncOpt}), post...)
@@ -200,7 +200,7 @@ func init() {
 		Engine: "crash",
 		Rule:   "pre-history x ONE batch (all bodies up to the bound, BatchOptions.Sync false/true) x post-history: a crash image after every I/O event from the batch on (inside Commit and after it), recovered as is (process death) and with every admissible cut of unsynced tails (power loss); the recovered dump must equal S_j exactly (a half-applied batch equals no S_j) within the acknowledgement / durability window; plus live and clean-restart visibility after Commit, through Merge (both scan orders) + adopting restart + further restarts. non-trivial = batch bodies with more than one operation",
 		Assumptions: []string{
-			"Standard I/O with DataFileSize 130 (two staged S puts overflow mid-way) and 200; MMap with 130 (quick tier: every fourth body; thorough tier: pre-histories of at most one operation)",
+			"Standard I/O with DataFileSize 130 (two staged S puts overflow mid-way) and 200; MMap with 130 (quick tier: every fourth body; thorough tier: pre-histories of two operations under Standard I/O with DataFileSize 130 only)",
 			"crash model of C03",
 		},
 		Tasks: c04Tasks,
